@@ -244,6 +244,19 @@ func (o *Optimizer) buildFinalPlan(s Storage, fp Plan, stmt *SelectStmt) (FinalP
 		}
 	}
 
+	// The value of a field without aggregate function is kept once per
+	// group like a group by field, it cannot be a list or a JSON value
+	for i, field := range stmt.Fields {
+		if o.findAggrFunc(field) {
+			continue
+		}
+		switch field.ReturnType() {
+		case TSTR, TNUMBER, TBOOL:
+		default:
+			return nil, NewSyntaxError(field.GetPos(), "Field %s return wrong type", stmt.FieldNames[i])
+		}
+	}
+
 	ffp = &AggregatePlan{
 		Storage:       s,
 		ChildPlan:     fp,
